@@ -121,8 +121,26 @@ def collect():
                     dangerous.add(get_type_name(obj))
             except Exception:
                 pass
+    # callables that share their leaf name with a default-trusted one but live in another (private) module of the same
+    # libraries: what a loader would reach if it compared names after "normalising" the module part
+    leafs = {n.rsplit(".", 1)[1] for n in defaults if "." in n}
+    lookalikes = set()
+    for modname, mod in sorted(sys.modules.items()):
+        if mod is None or not modname.startswith(("numpy", "scipy", "sklearn")):
+            continue
+        d = getattr(mod, "__dict__", {})
+        for leaf in leafs & set(d):
+            obj = d[leaf]
+            if (callable(obj) or isinstance(obj, type)) and f"{modname}.{leaf}" not in defaults:
+                try:
+                    if family_of(obj) == "OTHER":
+                        dangerous.add(f"{modname}.{leaf}")
+                        lookalikes.add(f"{modname}.{leaf}")
+                except Exception:
+                    pass
     dangerous -= family_members
-    return dict(defaults=sorted(defaults), tags=tags, dangerous=sorted(dangerous), per_kind=per_kind)
+    return dict(defaults=sorted(defaults), tags=tags, dangerous=sorted(dangerous), per_kind=per_kind,
+                lookalikes=sorted(lookalikes - family_members))
 
 
 def generate():
